@@ -263,19 +263,9 @@ def Slot.name (s : Slot) : List Nat :=
   ("layer".toList.map Char.toNat) ++ padDigits 9 s.layer ++ ("_q".toList.map Char.toNat) ++
     decimalDigits s.qubit ++ [95] ++ kindName s.kind
 
-/-- lexicographic comparison of names (how Qiskit sorts `circuit.parameters`) -/
-def nameLe (a b : List Nat) : Bool :=
-  match a, b with
-  | [], _ => true
-  | _ :: _, [] => false
-  | x :: xs, y :: ys => if x < y then true else if y < x then false else nameLe xs ys
-
-def insertSlot (s : Slot) : List Slot → List Slot
-  | [] => [s]
-  | t :: ts => if nameLe s.name t.name then s :: t :: ts else t :: insertSlot s ts
-
-/-- `circuit.parameters`: the slots sorted by name -/
-def sortSlots (l : List Slot) : List Slot := l.foldr insertSlot []
+/-- `circuit.parameters`: the slots sorted by name (lexicographic order of the character codes — how Qiskit
+sorts plain `Parameter`s) -/
+def sortSlots (l : List Slot) : List Slot := l.mergeSort (fun s t => decide (s.name ≤ t.name))
 
 /-- an assignment of values to slots -/
 abbrev Binding := List (Slot × Val)
